@@ -280,4 +280,10 @@ func (*parser).alias [C07]
   requires wfCur(p)
   callsite NewRange requires elemIndex(arg0) <= elemIndex(arg1)
   loop 0 invariant rangeindex0 >= 0 ==> p.cur >= start
+
+// the callback handed to filepath.WalkDir for directory imports: WalkDir passes a nil entry only together with the
+// root path (when the root cannot be read), so the entry may be used for every other path - and only there
+func (*parser).resolveModuleImport$2 [C03]
+  safe nilrecv
+  requires d == nil ==> path == inclPath
 @*/
